@@ -23,6 +23,9 @@ use vpmc::zoo::*;
 #[global_allocator]
 static ALLOC: vpmc::poison::Poison = vpmc::poison::Poison;
 
+static POOL1: std::sync::LazyLock<rayon::ThreadPool> = std::sync::LazyLock::new(|| rayon::ThreadPoolBuilder::new().num_threads(1).build().unwrap());
+static POOL3: std::sync::LazyLock<rayon::ThreadPool> = std::sync::LazyLock::new(|| rayon::ThreadPoolBuilder::new().num_threads(3).build().unwrap());
+
 #[derive(Debug, Clone, PartialEq)]
 enum YCol {
     OnModel,
@@ -354,6 +357,19 @@ impl<'a, T: Sc> Explorer<'a, T> {
                 self.violate("C10", "differs-from-fresh-problem", format!("{} after history {:?} differ (bitwise) from those of a freshly built problem at the same parameters", what, self.hist));
             }
             self.heavy(&o1, ai);
+            if self.sc.par && (self.prop == "C10" || self.prop == "C11") {
+                // the observable state of a parallel problem must not depend on the worker pool it is queried in
+                for (name, pool) in [("1 worker", &*POOL1), ("3 workers", &*POOL3)] {
+                    let pc = subject.clone_box();
+                    let o = pool.install(move || observe(pc.as_ref()));
+                    if o != o1 {
+                        let what = if o.jac != o1.jac { "jacobian" } else if o.res != o1.res { "residuals" } else { "coefficients" };
+                        let p = self.prop.to_string();
+                        self.violate(&p, "depends-on-worker-pool", format!("{} queried inside a pool of {} differ from the same query in the global pool (alphabet entry {})", what, name, ai));
+                    }
+                }
+                self.ctx.with(|s| s.inc("pool_independence_checked_states"));
+            }
             if self.prop == "C10" {
                 // every element is a computed value: the observation must not depend on what fresh heap memory contains
                 let mut first: Option<Obs<T>> = None;
